@@ -70,11 +70,19 @@ fn hash_ipv4_flow(ip_packet: &[u8], num_workers: usize) -> usize {
     let src_port = u16::from_be_bytes([tcp_header[0], tcp_header[1]]);
     let dst_port = u16::from_be_bytes([tcp_header[2], tcp_header[3]]);
 
+    // Requests and responses of one connection must reach the same worker, so the
+    // two endpoints are hashed in a direction-independent (sorted) order.
+    let ((ip_a, port_a), (ip_b, port_b)) = if (src_ip, src_port) <= (dst_ip, dst_port) {
+        ((src_ip, src_port), (dst_ip, dst_port))
+    } else {
+        ((dst_ip, dst_port), (src_ip, src_port))
+    };
+
     let mut hasher = DefaultHasher::new();
-    src_ip.hash(&mut hasher);
-    dst_ip.hash(&mut hasher);
-    src_port.hash(&mut hasher);
-    dst_port.hash(&mut hasher);
+    ip_a.hash(&mut hasher);
+    ip_b.hash(&mut hasher);
+    port_a.hash(&mut hasher);
+    port_b.hash(&mut hasher);
 
     (hasher.finish() as usize)
         .checked_rem(num_workers)
@@ -108,11 +116,19 @@ fn hash_ipv6_flow(ip_packet: &[u8], num_workers: usize) -> usize {
     let src_port = u16::from_be_bytes([tcp_header[0], tcp_header[1]]);
     let dst_port = u16::from_be_bytes([tcp_header[2], tcp_header[3]]);
 
+    // Requests and responses of one connection must reach the same worker, so the
+    // two endpoints are hashed in a direction-independent (sorted) order.
+    let ((ip_a, port_a), (ip_b, port_b)) = if (src_ip, src_port) <= (dst_ip, dst_port) {
+        ((src_ip, src_port), (dst_ip, dst_port))
+    } else {
+        ((dst_ip, dst_port), (src_ip, src_port))
+    };
+
     let mut hasher = DefaultHasher::new();
-    src_ip.hash(&mut hasher);
-    dst_ip.hash(&mut hasher);
-    src_port.hash(&mut hasher);
-    dst_port.hash(&mut hasher);
+    ip_a.hash(&mut hasher);
+    ip_b.hash(&mut hasher);
+    port_a.hash(&mut hasher);
+    port_b.hash(&mut hasher);
 
     (hasher.finish() as usize)
         .checked_rem(num_workers)
